@@ -163,6 +163,10 @@ func (g *gen) val(kind int, detP int, buf int, allowMismatch bool) VArg {
 	} else {
 		var f float64
 		for tries := 0; ; tries++ {
+			if kind == 2 && r.Chance(35) { // Uint8Clamped: ties and near-ties
+				f = []float64{0.5, 1.5, 2.5, 3.5, 4.5, 126.5, 253.5, 254.5, 255.5, 0.49999999999999994, 2.5000000000000004, 2.4999999999999996, 254.50000000000003, -0.5, 255.49999999999997}[r.Intn(15)]
+				break
+			}
 			switch r.Pick(45, 4, 4, 25, 22) {
 			case 0:
 				f = numClasses[r.Intn(len(numClasses))]
@@ -288,6 +292,7 @@ func (g *gen) op() *Op {
 		case 3:
 			s := []string{"2147483648", "4294967296", "9007199254740992", "9223372036854775808", "1000000000000000000000", "-9007199254740992", "4294967295"}[r.Intn(7)]
 			o.Key = &s
+			mismatchOK = false // beyond 2^53 goja treats the key like a non-index numeric key (see below)
 		case 4:
 			o.Ks = []string{"-0", "1.5", "NaN", "Infinity", "-Infinity", "1e-7", "0.5", "-1.5", "1e+21x"}[r.Intn(8)]
 			mismatchOK = false // a non-index numeric key with a value of the wrong type: goja does not throw (noted, not modelled)
@@ -348,7 +353,7 @@ func (g *gen) op() *Op {
 			if !tooLarge && (sm.off >= g.liveLen(sm.buf) || int64(dm.off)+toff*int64(esize[dm.kind]) >= int64(g.liveLen(dm.buf))) {
 				return nil // recorded finding: Go run-time panic on &data[len(data)]
 			}
-			if !isBig(sm.kind) && sm.kind >= 7 && dm.kind != 2 && dm.kind < 7 {
+			if !isBig(sm.kind) && sm.kind >= 7 && dm.kind != 2 && dm.kind < 9 {
 				// float source into an integer kind: values beyond 2^63 would hit F10; check the actual elements
 				for i := 0; i < sm.length; i++ {
 					var f float64
@@ -362,8 +367,8 @@ func (g *gen) op() *Op {
 						}
 						f = math.Float64frombits(u)
 					}
-					if convDiffers(dm.kind, f) {
-						return nil
+					if convDiffers(dm.kind, f) || (math.IsNaN(f) && dm.kind >= 7) {
+						return nil // (a NaN moved between float kinds: payload is implementation-defined)
 					}
 				}
 			}
